@@ -413,14 +413,14 @@ package deflate
 //@   ensures[C01 pos-inv] posInv(table, historySize, processed - old(offset), nOffset, 0)
 //@   ensures[C01 C14 tokens-ok] tokensOK(ntokens)
 //@   ensures@5[C01 C10 tail-literal-count] nOffset - len(ntokens) == atentry(offset) - atentry(len(tokens))
-//@   assert call append 3 [C01 C19 match-token] 3 <= matchLength && matchLength <= 258 && 1 <= dist && int(dist) <= historySize && int(dist) <= offset && offset + matchLength <= len(input)
+//@   assert call append 2 [C01 C19 match-token] 3 <= matchLength && matchLength <= 258 && 1 <= dist && int(dist) <= historySize && int(dist) <= offset && offset + matchLength <= len(input)
 //@   assert call compare 1 [C01 first8] forall k :: 0 <= k && k < 8 ==> input[prev+k] == input[offset+k]
 //@   assert call TrailingZeros64 1 [C01 first-ctz] forall k :: 0 <= k && k < ctz64(test)/8 ==> input[prev+k] == input[offset+k]
-//@   assert call append 3 [C01 match-bytes] split(test != 0) forall k :: 0 <= k && k < matchLength ==> input[offset-int(dist)+k] == input[offset+k]
-//@   assert call append 3 [C01 C19 match-symbols] lengthSymbol == matchLength + 254 && distSymbol < 30 && extraBits < uint32(1)<<distXBits(distSymbol) && distBase(distSymbol) + extraBits == dist
-//@   assert call append 2 [C01 C19 run-token] 1 <= dist && int(dist) <= historySize && int(dist) <= offset - 258 && lengthSymbol == 512 && distSymbol < 30 && extraBits < uint32(1)<<distXBits(distSymbol) && distBase(distSymbol) + extraBits == dist
-//@   assert call append 2 [C01 run-bytes] forall k :: 0 <= k && k < 258 ==> input[offset-258-int(dist)+k] == input[offset-258+k]
-//@   assert call append 1 [C01 literal] 1 <= offset && offset <= len(input) && lit == uint32(input[offset-1])
+//@   assert call append 2 [C01 match-bytes] split(test != 0) forall k :: 0 <= k && k < matchLength ==> input[offset-int(dist)+k] == input[offset+k]
+//@   assert call append 2 [C01 C19 match-symbols] lengthSymbol == matchLength + 254 && distSymbol < 30 && extraBits < uint32(1)<<distXBits(distSymbol) && distBase(distSymbol) + extraBits == dist
+//@   assert call append 1 [C01 C19 run-token] 1 <= dist && int(dist) <= historySize && int(dist) <= offset - 258 && lengthSymbol == 512 && distSymbol < 30 && extraBits < uint32(1)<<distXBits(distSymbol) && distBase(distSymbol) + extraBits == dist
+//@   assert call append 1 [C01 run-bytes] forall k :: 0 <= k && k < 258 ==> input[offset-258-int(dist)+k] == input[offset-258+k]
+//@   assert call append 3 [C01 literal] 1 <= offset && offset <= len(input) && lit == uint32(input[offset-1])
 //@   assert call append 4 [C01 flush-literal] 0 <= offset && offset < len(input)
 //@   loop 1 invariant old(offset) <= offset && offset <= len(input) && end == len(input) - 8 && relative == processed - old(offset) && len(tokens) <= maxToken && sameobj(tokens, old(tokens)) && cap(tokens) == old(cap(tokens)) && len(tokens) >= old(len(tokens))
 //@   loop 1 invariant posInv(table, historySize, relative, offset, 0)
@@ -448,6 +448,7 @@ package deflate
 //@   ensures[C01 C10 C18 consumed] len(ntokens) <= maxToken ==> (flush ==> nOffset == len(input)) && (!flush ==> nOffset + 8 >= len(input))
 //@   ensures[C01 C18 pos-inv] posInv(c.table[:], 1<<uint64(c.windowLevel), processed - old(offset), nOffset, 0)
 //@   ensures[C01 C14 C18 tokens-ok] tokensOK(ntokens)
+//@   assert call lz77 * [C19 window-arg] arg3 == 1<<uint64(c.windowLevel)
 
 //@ func (*level2context).generate
 //@   requires genPre2(c, input, processed, offset, tokens, maxToken)
@@ -457,6 +458,7 @@ package deflate
 //@   ensures[C01 C10 C18 consumed] len(ntokens) <= maxToken ==> (flush ==> nOffset == len(input)) && (!flush ==> nOffset + 8 >= len(input))
 //@   ensures[C01 C18 pos-inv] posInv(c.table[:], 1<<uint64(c.windowLevel), processed - old(offset), nOffset, 0)
 //@   ensures[C01 C14 C18 tokens-ok] tokensOK(ntokens)
+//@   assert call lz77 * [C19 window-arg] arg3 == 1<<uint64(c.windowLevel)
 
 // Assembly match finders (lz77_amd64.s): assumed to satisfy the contract of the Go lz77 for their window and table size.
 //@ func lz77Asm4kL12V1
